@@ -36,7 +36,7 @@ PROPS["C17"] = dict(
     technique="stateful model-based PBT (invocation counters + per-reader total model) over generated callback/collect "
               "histories; rapidcheck; real threads for the two race targets",
     rule="A case = reader/meter configuration + operation history.",
-    generators="obs_model: 1..3 readers (all cumulative | all delta | delta except up-down | cumulative counters only), 1..2 "
+    generators="observables-reuse: the obs_model histories once more with ASan's quarantine off (a destroyed instrument's address is reused at once). obs_model: 1..3 readers (all cumulative | all delta | delta except up-down | cumulative counters only), 1..2 "
                "meters, up to 5 instrument handles: kind counter/up-down/gauge x long/double, shape plain | view renames the "
                "stream | view names the default aggregation explicitly | two views (two streams) | further handle for an "
                "earlier name (names whose handles are all destroyed 3x as likely). 2 callback functions x 3 state indices; "
